@@ -196,6 +196,7 @@ WITNESSES = {
 
 
 def run_witness(wid):
+    os.makedirs(os.path.join(ROOT, '.work'), exist_ok=True)
     tmp = tempfile.mkdtemp(prefix='vxw_', dir=os.path.join(ROOT, '.work'))
     try:
         st, detail = WITNESSES[wid](tmp)
